@@ -305,7 +305,7 @@ class Project(object):
 
     def name_of(self, kind):
         if kind == "function" and self.method_of:
-            return "%s.%s" % (self.method_of, self.function_name)
+            return ("%s . %s" if self.name_blanks else "%s.%s") % (self.method_of, self.function_name)
         if kind == "function":
             return self.function_name
         return (self.names or {}).get(kind, DEF_NAMES[kind])
@@ -313,7 +313,7 @@ class Project(object):
     names = None  # optional {kind: dotted name} overriding the default definition names (e.g. a nested class)
 
     def name_path(self, kind):
-        return self.name_of(kind).split(".")
+        return [x.strip() for x in self.name_of(kind).split(".")]
 
     def write(self, kind, text):
         p = self.path(kind)
@@ -354,12 +354,22 @@ class Project(object):
     def extra_paths(self, k):
         return [os.path.join(self.root, fn) for fn in (self.extra or {}).get(k, [])]
 
+    truth_last = False  # API only: list the truth file after the other files of its kind
+    tilde = False  # spell every path as ~/<file> (HOME is pointed at the project directory for the call)
+    name_blanks = False  # spell a dotted function name with blanks around the dot
+
+    def spelled(self, p):
+        return "~/" + os.path.basename(p) if self.tilde else p
+
     def namespace(self, truth, kinds):
         ns = {"truth": truth}
         for k in KINDS:
             plural = {"class": "classes", "function": "functions", "argparse_function": "argparse_functions"}[k]
             names = {"class": "class_names", "function": "function_names", "argparse_function": "argparse_function_names"}[k]
-            ns[plural] = ([self.path(k)] + self.extra_paths(k)) if k in kinds else None
+            files = [self.path(k)] + self.extra_paths(k)
+            if self.truth_last and k == truth:
+                files = files[1:] + files[:1]
+            ns[plural] = [self.spelled(f) for f in files] if k in kinds else None
             ns[names] = [self.name_of(k)] if k in kinds else None
         return Namespace(**ns)
 
@@ -368,9 +378,9 @@ class Project(object):
         flag = {"class": "--class", "function": "--function", "argparse_function": "--argparse-function"}
         for k in KINDS:
             if k in kinds:
-                argv += [flag[k], self.path(k), flag[k] + "-name", self.name_of(k)]
+                argv += [flag[k], self.spelled(self.path(k)), flag[k] + "-name", self.name_of(k)]
                 for p in self.extra_paths(k):
-                    argv += [flag[k], p]
+                    argv += [flag[k], self.spelled(p)]
         return argv
 
     def sync(self, truth, kinds, via="api"):
@@ -379,6 +389,9 @@ class Project(object):
         from doctrans.conformance import ground_truth
         from doctrans.__main__ import main
 
+        old_home = os.environ.get("HOME")
+        if self.tilde:
+            os.environ["HOME"] = self.root
         with boot.quiet() as q:
             try:
                 if via == "api":
@@ -390,4 +403,10 @@ class Project(object):
                 if isinstance(e, KeyboardInterrupt):
                     raise
                 rep, exc = None, e
+            finally:
+                if self.tilde:
+                    if old_home is None:
+                        os.environ.pop("HOME", None)
+                    else:
+                        os.environ["HOME"] = old_home
         return exc, rep, q.out.getvalue()
